@@ -51,7 +51,26 @@ def run_one(name, tier, extra_checks):
 
 
 def main():
+    global REPO
     a = sys.argv[1:]
+    scratch = None
+    if '--scratch' in a:
+        # same procedure on a scratch worktree of /repo (VERIF_REPO), for use while something else is building from /repo
+        a.remove('--scratch')
+        scratch = '/tmp/mmd6-wt-seeded'
+        sh(['git', '-C', '/repo', 'worktree', 'remove', '--force', scratch])
+        wt = sh(['git', '-C', '/repo', 'worktree', 'add', '--detach', scratch, 'HEAD'])
+        assert wt.returncode == 0, wt.stderr
+        REPO = scratch
+        os.environ['VERIF_REPO'] = scratch
+    try:
+        _main(a)
+    finally:
+        if scratch:
+            sh(['git', '-C', '/repo', 'worktree', 'remove', '--force', scratch])
+
+
+def _main(a):
     tier = 'quick'
     if '--tier' in a:
         i = a.index('--tier')
